@@ -31,8 +31,17 @@ pub enum Who {
 const WHOS: [Who; 4] = [Who::Owner, Who::Former, Who::Stranger, Who::Nobody];
 
 #[derive(Clone, Copy, Debug, Serialize, Deserialize, PartialEq, Eq)]
+pub enum Kind {
+    Upgrade,
+    Migrate,
+    /// transfer_ownership to "the other" of two fixed addresses (so ownership can change while a window is open)
+    Transfer,
+}
+const KINDS: [Kind; 3] = [Kind::Upgrade, Kind::Migrate, Kind::Transfer];
+
+#[derive(Clone, Copy, Debug, Serialize, Deserialize, PartialEq, Eq)]
 pub struct Act {
-    pub migrate: bool,
+    pub kind: Kind,
     pub who: Who,
 }
 
@@ -85,11 +94,11 @@ pub enum Case {
 }
 
 fn act() -> impl Strategy<Value = Act> {
-    (any::<bool>(), prop::sample::select(WHOS.to_vec())).prop_map(|(migrate, who)| Act { migrate, who })
+    (prop::sample::select(KINDS.to_vec()), prop::sample::select(WHOS.to_vec())).prop_map(|(kind, who)| Act { kind, who })
 }
 
 fn all_seqs(max_len: usize) -> Vec<Vec<Act>> {
-    let acts: Vec<Act> = [false, true].iter().flat_map(|m| WHOS.iter().map(move |w| Act { migrate: *m, who: *w })).collect();
+    let acts: Vec<Act> = KINDS.iter().flat_map(|k| WHOS.iter().map(move |w| Act { kind: *k, who: *w })).collect();
     let mut out: Vec<Vec<Act>> = vec![vec![]];
     let mut frontier: Vec<Vec<Act>> = vec![vec![]];
     for _ in 0..max_len {
@@ -135,6 +144,8 @@ struct SeqWorld<'a> {
     owner: Address,
     former: Address,
     stranger: Address,
+    /// the two addresses ownership alternates between when a sequence transfers it
+    alt: [Address; 2],
 }
 
 fn seq_world<'a>(target: u8, transfer_first: bool) -> SeqWorld<'a> {
@@ -161,7 +172,8 @@ fn seq_world<'a>(target: u8, transfer_first: bool) -> SeqWorld<'a> {
         // no former owner exists: the role is played by a second stranger
         (owner0, Address::generate(&env))
     };
-    SeqWorld { s, target: target_addr, owner, former, stranger }
+    let alt = [s.pool[EXTRA_A].clone(), s.pool[GAS_COLLECTOR].clone()];
+    SeqWorld { s, target: target_addr, owner, former, stranger, alt }
 }
 
 impl Property for C15 {
@@ -170,10 +182,10 @@ impl Property for C15 {
         "C15"
     }
     fn rule(&self) -> &'static str {
-        "(A) for each of the five production contracts and a harness contract built with the repo's derive macros: ALL sequences over {upgrade(empty-Wasm hash, keeps native dispatch of the current source), migrate} x {owner, former owner, stranger, nobody} up to length 3 (quick) / 4 (thorough), with and without a preceding ownership transfer, enumerated as fixed cases; proptest adds random sequences up to length 8. Oracle: migration-window model (upgrade needs the current owner and opens the window; migrate needs the current owner and an open window, closes it, emits upgraded(version)); everything else fails with the ledger snapshot identical; the window flag is also read directly as a recorded cross-check (never a verdict). (B) Upgrader: ALL combinations of target (configurable harness target; native dummy -> committed dummy.wasm; the five production contracts) x requested version (same / next / wrong / current+suffix / strict prefix of what the new code reports) x authorisation coverage (both steps, one step only, none, both by a stranger, both by the former owner) x migration data (well-typed, ill-typed, too many arguments, failing migration, new code reporting another / the old version), enumerated as fixed cases, with and without a preceding ownership transfer. Oracle: success iff versions differ beforehand, the current owner authorised both steps, migrate accepts the data, and the version afterwards equals the request (then version/data are the new ones); otherwise failure with the target's ledger snapshot identical (code, version, data, flag). non-trivial = any case but a lone owner upgrade; distinct by Debug hash"
+        "(A) for each of the five production contracts and a harness contract built with the repo's derive macros: ALL sequences over {upgrade(empty-Wasm hash, keeps native dispatch of the current source), migrate, transfer_ownership} x {owner, former owner, stranger, nobody} up to length 3 (quick) / 4 (thorough), with and without a preceding ownership transfer, enumerated as fixed cases; proptest adds random sequences up to length 8. Oracle: migration-window model (upgrade and transfer need the current owner, upgrade opens the window; migrate needs the *current* owner (also when ownership changed while the window was open) and an open window, closes it, emits upgraded(version)); everything else fails with the ledger snapshot identical; the window flag is also read directly as a recorded cross-check (never a verdict). (B) Upgrader: ALL combinations of target (configurable harness target; native dummy -> committed dummy.wasm; the five production contracts) x requested version (same / next / wrong / current+suffix / strict prefix of what the new code reports) x authorisation coverage (both steps, one step only, none, both by a stranger, both by the former owner) x migration data (well-typed, ill-typed, too many arguments, failing migration, new code reporting another / the old version), enumerated as fixed cases, with and without a preceding ownership transfer. Oracle: success iff versions differ beforehand, the current owner authorised both steps, migrate accepts the data, and the version afterwards equals the request (then version/data are the new ones); otherwise failure with the target's ledger snapshot identical (code, version, data, flag). non-trivial = any case but a lone owner upgrade; distinct by Debug hash"
     }
     fn fixed_is_exhaustive(&self) -> Option<&'static str> {
-        Some("all {upgrade,migrate}x{owner,former,stranger,nobody} sequences to length 3 (quick) / 4 (thorough) on 6 targets x {with,without} ownership transfer; and the full Upgrader matrix")
+        Some("all {upgrade,migrate,transfer}x{owner,former,stranger,nobody} sequences to length 3 (quick) / 4 (thorough) on 6 targets x {with,without} ownership transfer; and the full Upgrader matrix")
     }
     fn cases(&self, tier: Tier) -> u64 {
         tier.pick(4000, 60000)
@@ -219,47 +231,76 @@ impl Property for C15 {
                 let hash = BytesN::from_array(env, &empty_wasm_hash());
                 let version = client.version();
                 let mut open = false;
-                if actions.len() > 1 || actions.iter().any(|a| a.migrate || a.who != Who::Owner) {
+                let mut owner = w.owner.clone();
+                let mut former = w.former.clone();
+                if actions.len() > 1 || actions.iter().any(|a| a.kind != Kind::Upgrade || a.who != Who::Owner) {
                     cx.nontrivial();
                 }
                 cx.label(name);
+                let oclient = axelar_soroban_std::interfaces::OwnableClient::new(env, &w.target);
                 for (i, a) in actions.iter().enumerate() {
                     let signer: Option<Address> = match a.who {
-                        Who::Owner => Some(w.owner.clone()),
-                        Who::Former => Some(w.former.clone()),
+                        Who::Owner => Some(owner.clone()),
+                        Who::Former => Some(former.clone()),
                         Who::Stranger => Some(w.stranger.clone()),
                         Who::Nobody => None,
                     };
+                    let next_owner = if owner == w.alt[0] { w.alt[1].clone() } else { w.alt[0].clone() };
                     let margs: SVec<Val> = SVec::from_array(env, [().into_val(env)]);
                     let uargs: SVec<Val> = SVec::from_array(env, [hash.clone().into_val(env)]);
+                    let targs: SVec<Val> = SVec::from_array(env, [next_owner.clone().into_val(env)]);
                     let entries = match &signer {
-                        Some(s) => vec![(s.clone(), if a.migrate { node(env, &w.target, "migrate", &margs, vec![]) } else { node(env, &w.target, "upgrade", &uargs, vec![]) })],
+                        Some(s) => vec![(
+                            s.clone(),
+                            match a.kind {
+                                Kind::Migrate => node(env, &w.target, "migrate", &margs, vec![]),
+                                Kind::Upgrade => node(env, &w.target, "upgrade", &uargs, vec![]),
+                                Kind::Transfer => node(env, &w.target, "transfer_ownership", &targs, vec![]),
+                            },
+                        )],
                         None => vec![],
                     };
                     auth::install(env, &entries);
-                    let is_owner = a.who == Who::Owner;
-                    let expect_ok = if a.migrate { is_owner && open } else { is_owner };
+                    // decided by address: the "former owner" class only differs from the owner if ownership ever changed
+                    let is_owner = signer.as_ref() == Some(&owner);
+                    let expect_ok = match a.kind {
+                        Kind::Migrate => is_owner && open,
+                        Kind::Upgrade | Kind::Transfer => is_owner,
+                    };
                     let snap0 = snapshot(env);
                     let ev0 = events_len(env);
-                    let ok = if a.migrate { try_migrate(env, &w.target, margs.clone()) } else { matches!(client.try_upgrade(&hash), Ok(Ok(()))) };
+                    let ok = match a.kind {
+                        Kind::Migrate => try_migrate(env, &w.target, margs.clone()),
+                        Kind::Upgrade => matches!(client.try_upgrade(&hash), Ok(Ok(()))),
+                        Kind::Transfer => matches!(oclient.try_transfer_ownership(&next_owner), Ok(Ok(()))),
+                    };
                     if expect_ok {
                         cx.count("must_succeed");
-                        ensure_p!(ok, "{}: step {} {:?} refused although authorised by the current owner{}", name, i, a, if a.migrate { " with the migration window open" } else { "" });
-                        if a.migrate {
-                            open = false;
-                            let evs: Vec<_> = events_since(env, ev0).into_iter().filter(|e| e.0 == w.target).collect();
-                            // "announces the new version": one event by the target that carries the version string
-                            let vsc = scv(env, version.clone());
-                            let carries = |e: &Ev| e.1.contains(&vsc) || e.2 == vsc || matches!(&e.2, soroban_sdk::xdr::ScVal::Vec(Some(v)) if v.contains(&vsc));
-                            ensure_p!(evs.len() == 1 && carries(&evs[0]), "{}: migration did not announce the version in exactly one event: {:?}", name, evs);
-                        } else {
-                            open = true;
+                        ensure_p!(ok, "{}: step {} {:?} refused although authorised by the current owner{} (sequence {:?})", name, i, a, if a.kind == Kind::Migrate { " with the migration window open" } else { "" }, actions);
+                        match a.kind {
+                            Kind::Migrate => {
+                                open = false;
+                                let evs: Vec<_> = events_since(env, ev0).into_iter().filter(|e| e.0 == w.target).collect();
+                                // "announces the new version": one event by the target that carries the version string
+                                let vsc = scv(env, version.clone());
+                                let carries = |e: &Ev| e.1.contains(&vsc) || e.2 == vsc || matches!(&e.2, soroban_sdk::xdr::ScVal::Vec(Some(v)) if v.contains(&vsc));
+                                ensure_p!(evs.len() == 1 && carries(&evs[0]), "{}: migration did not announce the version in exactly one event: {:?}", name, evs);
+                            }
+                            Kind::Upgrade => open = true,
+                            Kind::Transfer => {
+                                if open {
+                                    cx.label("ownership_changes_while_window_open");
+                                }
+                                former = owner.clone();
+                                owner = next_owner.clone();
+                                ensure_p!(oclient.owner() == owner, "{}: owner() does not name the successor", name);
+                            }
                         }
                     } else {
                         cx.count("must_fail");
                         ensure_p!(
                             !ok,
-                            "{}: step {} {:?} succeeded (window open: {}, sequence {:?}, ownership transferred first: {})",
+                            "{}: step {} {:?} succeeded without the current owner's authorisation or outside the migration window (window open: {}, sequence {:?}, ownership transferred first: {})",
                             name,
                             i,
                             a,
